@@ -95,13 +95,16 @@ package percolator
 
 // C18 prewrite: a key is locked and its value staged only if the conflict checks ran
 // and found neither a lock of another transaction nor ANY write record (commit or
-// rollback marker alike) at or above the start version.
+// rollback marker alike) at or above the start version. A key that already carries this
+// transaction's own lock (a repeated prewrite) is left exactly as it is - the lock's minimum
+// commit timestamp may have been pushed since (defect repaired: the lock was rebuilt).
 //@ func prewriteMutation
 //@   property C18
 //@   requires req != nil && mut != nil
 //@   ensures [newer-write-blocks-prewrite] mrwCalls == old(mrwCalls) + 1 && lastMRWFound && lastMRWCommitTs >= req.StartVersion ==> result != nil && dbWrites == old(dbWrites)
 //@   ensures [foreign-lock-blocks-prewrite] lockLookups == old(lockLookups) + 1 && lastLockFound && lastLockTs != req.StartVersion ==> result != nil && dbWrites == old(dbWrites)
-//@   ensures [conflict-checks-not-skipped] result == nil ==> mrwCalls == old(mrwCalls) + 1 && lockLookups == old(lockLookups) + 1
+//@   ensures [conflict-checks-not-skipped] result == nil ==> lockLookups == old(lockLookups) + 1 && (mrwCalls == old(mrwCalls) + 1 || (lastLockFound && lastLockTs == req.StartVersion))
+//@   ensures [repeated-prewrite-keeps-the-lock] lockLookups == old(lockLookups) + 1 && lastLockFound && lastLockTs == req.StartVersion ==> result == nil && dbWrites == old(dbWrites)
 //@   modifies ghost(mrwCalls), ghost(lastMRWFound), ghost(lastMRWCommitTs), ghost(lockLookups), ghost(lastLockFound), ghost(lastLockTs), ghost(lastLockTTL), ghost(prevLockFound), ghost(prevLockTs), ghost(prevLockTTL), ghost(dbWrites), ghost(writeCFSets), ghost(lockDeletes), ghost(defaultDeletes), ghost(writeAfterLockDelete)
 
 // C19 CheckTxnStatus: a lock entry is deleted only when the lookup right before the
